@@ -39,8 +39,13 @@ CU = 'utils.courier_utils'
 
 
 def run(ctx: Ctx):
-  for r in (r1, r2, r3, r4, r5, r6, r7):
+  for r in (r1, r2, r3, r4, r5, r6, r7, r8):
     ctx.guard(r)
+  from mlmverif.props import c15
+  ctx.include('R-C06-9', 'a worker that lost its generator (restarted mid-shard)'
+              ' answers with a RETRIABLE error, so the shard is re-queued'
+              ' instead of failing the run (R-C15-4 terminal/uninitialised'
+              ' answers)', c15.r4, min_instances=3)
 
 
 def _nested(fi: FuncInfo, name: str) -> FuncInfo:
@@ -576,12 +581,71 @@ def r7(ctx: Ctx):
   ctx.floor(rule, 2)
 
 
+def r8(ctx: Ctx):
+  rule = 'R-C06-8'
+  ctx.rule(rule, 'the capacity placeholder is always taken back: the artificial'
+           ' pending future that CourierClient.async_iterate appends to'
+           ' `_pendings` (so the worker counts as busy) is cancelled on EVERY'
+           ' exit — return, raise and generator close — otherwise a worker'
+           ' whose shard attempt failed once never has capacity again and is'
+           ' lost to the pool although it is alive')
+  fi = _find(ctx.repo, 'utils.courier_utils', 'CourierClient.async_iterate')
+  g = cfgm.cfg_of(fi.node)
+  from mlmverif import pat
+  mk = pat.search(fi.node, '$f = futures.Future()', nested=False)
+  if not mk:
+    raise AnalysisError(f'{rule}: placeholder future not found in async_iterate')
+  fv = mk[0][1]['f']
+  apps = [n for n in g.nodes if any(isinstance(c, ast.Call) and unparse(c.func) == 'self._pendings.append'
+                                    and fv in {y.id for y in ast.walk(c) if isinstance(y, ast.Name)}
+                                    for x in cfgm.node_exprs(n) for c in ast.walk(x))]
+  if not apps:
+    raise AnalysisError(f'{rule}: the placeholder is not appended to self._pendings')
+  done = lambda n: any(isinstance(c, ast.Call) and isinstance(c.func, ast.Attribute) and c.func.attr in (
+      'cancel', 'set_result', 'set_exception') and unparse(c.func.value) == fv
+                       for x in cfgm.node_exprs(n) for c in ast.walk(x))
+
+  def edge_ok(p_, q_, lab):
+    # statements of the clean-up block itself are assumed not to raise
+    if lab in ('exc', 'close') and p_.via and not isinstance(p_.ast, ast.Raise):
+      return False
+    return True
+
+  exits = [g.exit_ret, g.exit_exc] + ([g.exit_close] if g.is_generator else [])
+  bad = None
+  for a in apps:
+    for s_, lab in a.succ:
+      if lab in ('exc', 'close'):
+        continue
+      w = g.must_pass(s_, exits, done, edge_ok)
+      if w is not None:
+        bad = w
+  if bad is None:
+    ctx.ok(rule, fi, f'{fv}.cancel() on every exit of async_iterate', apps[0].ast)
+  else:
+    kind = bad[-1].split(':')[1] if bad else ''
+    ctx.fail(rule, fi, f'CourierClient.async_iterate: {fv}.cancel() on every exit',
+             'async_iterate can leave through '
+             + ('a raise' if 'exc' in kind else 'generator close' if 'close' in kind else 'a return')
+             + ' with its capacity placeholder still pending: has_capacity stays'
+             ' False for that worker, idle_workers()/next_idle_worker() never hand'
+             ' it out again and retried shards are never resubmitted',
+             node=apps[0].ast, witness=bad[-10:])
+  ctx.floor(rule, 1)
+
+
 from mlmverif.selfcheck import B, OK  # noqa: E402
 
 _W = 'chainables/courier_worker.py'
 _O = 'chainables/orchestrate.py'
 _U = 'utils/courier_utils.py'
 VARIANTS = [
+    B('placeholder-cancel-outside-finally', _U,
+      '      raise e\n    finally:\n      generator_state.cancel()',
+      '      raise e\n    generator_state.cancel()', 'R-C06-8'),
+    B('restarted-worker-answers-fatal', 'chainables/courier_server.py',
+      "    if self._generator is None:\n      e = TimeoutError(", "    if self._generator is None:\n      e = RuntimeError(",
+      'R-C06-9'),
     B('alive-heartbeat-only-refreshes', 'chainables/courier_server.py',
       '      courier_utils.worker_registry().register(\n          sender_addr, self._last_heartbeat\n      )',
       '      courier_utils.worker_registry().refresh(\n          sender_addr, self._last_heartbeat\n      )',
